@@ -58,6 +58,12 @@ def run_contract(task, budget_s=120):
             from . import lemma
             obls, gen = lemma.obligations(c, reg)
             out['file'] = 'contracts (ghost lemma)'
+        elif c.get('source'):
+            # ghost lemma over contracts: a few lines of Python that only call functions through their contracts
+            fn = ast.parse(c['source'].strip()).body[0]
+            out['file'] = 'contracts (ghost composition lemma)'
+            gen = core.Gen(fn, c, reg, name.split('.')[0])
+            obls = gen.run()
         else:
             fn, path = find_function(c.get('target', name))
             out['file'] = path
